@@ -103,11 +103,25 @@ pub fn check_body(mapfile: &str, body: &str, vals: &[Valuation]) -> (String, Vec
     let r = catch(|| with_truth(mapfile, |truth| {
         let block = match front_end(truth, body, true) { Ok(b) => b, Err((stage, d)) => return Err(format!("rejected:{stage}:{}", d.lines().next().unwrap_or(""))) };
         let des = match desugar(truth, &block) { Ok(b) => b, Err(d) => return Err(format!("rejected:desugar:{}", d.lines().next().unwrap_or(""))) };
+        // A negative `times` count is undefined at source level (AstVm runs `times(n)` zero times but `times(r = n)` and the
+        // lowered form 2^32+n times): find the valuations that reach one by running an instrumented copy of the source.
+        let mut negative = vec![false; vals.len()];
+        if body.contains("B -= 1;") && (body.contains("times(B)") || body.contains(" = B)")) {
+            let mut inst = body.replace("times(B)", "if (B < 0) { mS(-777); } times(B)");
+            for clob in ["D", "Q", "P", "COUNT"] { inst = inst.replace(&format!("times({clob} = B)"), &format!("if (B < 0) {{ mS(-777); }} times({clob} = B)")); }
+            if let Ok(iblock) = front_end(truth, &inst, true) {
+                for (vi, val) in vals.iter().enumerate() {
+                    let t = run_astvm(truth, &iblock.0, val, 0);
+                    negative[vi] = t.log.iter().any(|c| c.args.first().map(|a| a.as_int() == -777).unwrap_or(false));
+                }
+            }
+        }
         let mut runs = vec![];
         for (vi, val) in vals.iter().enumerate() {
+            if negative[vi] { runs.push((vi, None)); continue; }
             let a = run_astvm(truth, &block.0, val, 0);
             let b = run_astvm(truth, &des.0, val, 0);
-            runs.push((vi, a, b));
+            runs.push((vi, Some((a, b))));
         }
         Ok((runs, truth::fmt::stringify(&des)))
     }));
@@ -117,7 +131,8 @@ pub fn check_body(mapfile: &str, body: &str, vals: &[Valuation]) -> (String, Vec
         Ok(Ok(x)) => x,
     };
     let cmp_regs: Vec<i32> = REGS.iter().map(|r| r.id).collect();
-    for (vi, a, b) in runs {
+    for (vi, ab) in runs {
+        let Some((a, b)) = ab else { discards.push("source-undefined:negative-times-count".into()); continue; };
         execs += 2;
         for t in [&a, &b] { if let Some(s) = &t.stopped { if s.starts_with("vm-panic") && !s.contains("iteration") {
             // a VM panic on the *source* is undefined source behaviour; on the desugared side only it is a finding
